@@ -1,7 +1,7 @@
 """Per-property and per-suite configuration of the orchestrator."""
 
 # .vo files Extract.v depends on (built before extraction)
-EXTRACT_DEPS = ['Codec/FilterCase.vo', 'Agent/ReasmRs.vo', 'Agent/Model.vo', 'Agent/Monitors.vo', 'Codec/WireMon.vo', 'Codec/EncodeMsg.vo', 'Codec/AttrValue.vo']
+EXTRACT_DEPS = ['Codec/FilterCase.vo', 'Agent/ReasmRs.vo', 'Agent/Model.vo', 'Agent/Monitors.vo', 'Codec/WireMon.vo', 'Codec/EncodeMsg.vo', 'Proofs/ArcHeapProofs.vo', 'Codec/AttrValue.vo']
 
 SUITES = {
     'attrval': dict(bin='attrval', nontrivial=r'^C [DE] '),
@@ -12,6 +12,7 @@ SUITES = {
     'wire': dict(bin='wire', nontrivial=r'^C (F |\S+ \S{48})'),
     'encbuf': dict(bin='encbuf', nontrivial=r'^C \d+ \d \S+ \d+ \S+ [pmsf]'),
     'encbuf-release': dict(bin='encbuf', driver='encbuf', release=True, nontrivial=r'^C \d+ \d \S+ \d+ \S+ [pmsf]'),
+    'valueapi': dict(bin='valueapi', nontrivial=r'^C (A|S \S \S*c)'),
     'reasm': dict(bin='reasm', nontrivial=r'^C \d+ \S+ \S+'),
 }
 
@@ -89,4 +90,11 @@ PROPS = {
                      'after the call (md5) is compared with the Gallina encoder; distinct = distinct records; non-trivial = at least one attribute',
                 assumptions=['value encoders of the kinds used write exactly their value after checking the room (checked by the correspondence)']),
     'C15': dict(suites=['agent'], monitors=['C15'], rule=AGENT_RULE + '; one history in ten is a long send/response sequence (20-150 transactions, response delays 1 ms .. 3 s, idle gaps 600 s -1/+0/+1 ns and 1300 s)', assumptions=AGENT_ASSUME),
+    'C19': dict(suites=['valueapi'], monitors=['C19clone', 'C19api'],
+                rule='suite valueapi: scripts of 3-9 operations over {new, clone, add through either copy, read} on PasswordAlgorithms and UnknownAttributes with up to 6 bindings, '
+                     'compared with the reference-counted heap model and with value semantics; sweeps under catch_unwind of the public constructors / accessors / conversions: all u16 '
+                     'for MessageType / MessageMethod / AlgorithmId / ErrorCode / turn integer types, all u8 for classes and families, ~900 strings over ASCII, multi-byte, quoting, '
+                     'cookie-prefix and boundary-length (507..510, 762..764, 64000, 64001) alphabets for every string constructor and key derivation; distinct = distinct records; '
+                     'non-trivial = scripts with a clone, and every API sweep',
+                assumptions=['Arc is a hand-written model (reference-counted heap); documented panicking accessors (expect_*) are not called on mismatching variants']),
 }
